@@ -689,7 +689,10 @@ fn main() {
             #[tauri::command]\npub fn delete(id: u32) -> u32 {{ id }}\n\
             #[tauri::command]\npub fn new() -> u32 {{ 0 }}\n\
             #[tauri::command]\npub fn default() -> u32 {{ 0 }}\n\
-            #[tauri::command]\npub fn import(path: String) -> u32 {{ 0 }}\n", HDR);
+            #[tauri::command]\npub fn import(path: String) -> u32 {{ 0 }}\n\
+            #[tauri::command]\npub fn _1st(a: u32) -> u32 {{ a }}\n\
+            #[tauri::command]\npub fn __(a: u32) -> u32 {{ a }}\n\
+            #[tauri::command]\npub fn _2() -> u32 {{ 0 }}\n", HDR);
         let dir = root.join("modes/src");
         write_files(&dir, &[("lib.rs".to_string(), src)]);
         let none = generate(&dir, &root.join("modes/out_none"), "none");
